@@ -16,6 +16,7 @@ import (
 	"strings"
 	"sync"
 	"sync/atomic"
+	"syscall"
 	"testing"
 	"time"
 	"unicode/utf8"
@@ -464,6 +465,17 @@ func RunCase(c *Case, st *Stats) string {
 var hangLimit = 20 * time.Second
 var currentCase atomic.Pointer[Case]
 var currentStart atomic.Int64
+var currentCPU atomic.Int64 // process CPU time (ns) when the case started
+
+// processCPU is the CPU time this process has consumed so far (user + system).
+func processCPU() time.Duration {
+	var ru syscall.Rusage
+	if syscall.Getrusage(syscall.RUSAGE_SELF, &ru) != nil {
+		return 0
+	}
+	return time.Duration(ru.Utime.Nano() + ru.Stime.Nano())
+}
+
 var watchdogOnce sync.Once
 
 func startWatchdog() {
@@ -477,6 +489,13 @@ func startWatchdog() {
 					continue
 				}
 				if d := time.Since(time.Unix(0, st)); d > hangLimit {
+					// Wall-clock time alone would blame the library for a starved machine. A case counts as
+					// hanging when it has also burnt most of the limit in CPU time (a loop), or next to none
+					// (blocked on a lock), or when nine times the limit has passed whatever the machine did.
+					cpu := processCPU() - time.Duration(currentCPU.Load())
+					if cpu < hangLimit*3/4 && cpu > hangLimit/10 && d < 9*hangLimit {
+						continue
+					}
 					cc := *c
 					cc.Note = fmt.Sprintf("the case did not finish within %s (hang detector)", hangLimit)
 					if !utf8.ValidString(cc.Path) {
@@ -496,6 +515,7 @@ func startWatchdog() {
 
 func enterCase(c *Case) {
 	currentCase.Store(c)
+	currentCPU.Store(int64(processCPU()))
 	currentStart.Store(time.Now().UnixNano())
 }
 
